@@ -185,4 +185,158 @@ theorem gapsNat_start {q : Q} (I : Inv q) (hn : ¬ heldAt q 1) : ∀ p ∈ gapsN
   have : p.1 = 1 := by omega
   rw [this] at hh; exact hn hh
 
+/-! ## 12. small facts about runs used by the property statements -/
+
+theorem run_append (s : St) (ops ops' : List Op) : run s (ops ++ ops') = run (run s ops) ops' := by
+  simp [run, List.foldl_append]
+
+theorem run_snoc (s : St) (ops : List Op) (op : Op) : run s (ops ++ [op]) = step (run s ops) op := by
+  simp [run, List.foldl_append]
+
+theorem popLoopS_maxOff (n : Nat) : ∀ (s : St), (popLoopS n s).q.maxOff = s.q.maxOff := by
+  induction n with
+  | zero => intro s; rfl
+  | succ n ih =>
+    intro s; simp only [popLoopS]; split
+    · rw [ih]; exact pop_maxOff _ _
+    · rfl
+
+theorem step_maxOff (s : St) (op : Op) : (step s op).q.maxOff = s.q.maxOff := by
+  cases op with
+  | init c => rfl
+  | push t => exact push_maxOff _ _
+  | pop f => exact pop_maxOff _ _
+  | adv c => exact advance_maxOff _ _
+  | data t st =>
+    simp only [step, sData, popAllS]; rw [popLoopS_maxOff]; split
+    · exact push_maxOff _ _
+    · rfl
+  | fwd c =>
+    simp only [step, sFwd, popAllS]; split
+    · rfl
+    · rw [popLoopS_maxOff]; exact advance_maxOff _ _
+  | sack => rfl
+
+theorem run_maxOff (s : St) (ops : List Op) : (run s ops).q.maxOff = s.q.maxOff := by
+  induction ops generalizing s with
+  | nil => rfl
+  | cons op ops ih => simp only [run, List.foldl_cons] at ih ⊢; rw [ih, step_maxOff]
+
+theorem start_maxOff (m c : TSN) : (start m c).q.maxOff = (new m).maxOff := rfl
+
+/-- the pop loop does not touch the ghost sets -/
+theorem popLoopS_sets (n : Nat) : ∀ (s : St), (popLoopS n s).h.acc = s.h.acc ∧
+    ∀ k, s.h.skp k → (popLoopS n s).h.skp k := by
+  induction n with
+  | zero => intro s; exact ⟨rfl, fun _ h => h⟩
+  | succ n ih =>
+    intro s; simp only [popLoopS]; split
+    · obtain ⟨a, b⟩ := ih (sPop s false)
+      exact ⟨a, fun k h => b k (Or.inl h)⟩
+    · exact ⟨rfl, fun _ h => h⟩
+
+/-- the rounding in `new` and the association's sizing (`getMaxTSNOffset ≤ 40000`) -/
+theorem round_le (o : BitVec 32) (h : o.toNat ≤ 40000) :
+    (((o + 63#32) / 64#32) * 64#32).toNat ≤ 40000 := by
+  rw [BitVec.toNat_mul, BitVec.toNat_udiv, BitVec.toNat_add]
+  simp only [BitVec.toNat_ofNat, Nat.reducePow, Nat.reduceMod]
+  omega
+
+theorem getMaxTSNOffset_le (rb : BitVec 32) : (getMaxTSNOffset rb).toNat ≤ 40000 := by
+  simp only [getMaxTSNOffset, gmin]
+  split
+  · rename_i h; exact h
+  · decide
+
+/-- the ghost sets only grow (until the next `init`) -/
+theorem step_sets_mono (s : St) (op : Op) (hop : ∀ c, op ≠ .init c) :
+    (∀ k, s.h.acc k → (step s op).h.acc k) ∧ (∀ k, s.h.skp k → (step s op).h.skp k) := by
+  cases op with
+  | init c => exact absurd rfl (hop c)
+  | push t => exact ⟨fun k h => Or.inl h, fun k h => h⟩
+  | pop f => exact ⟨fun k h => h, fun k h => Or.inl h⟩
+  | adv c => exact ⟨fun k h => h, fun k h => Or.inl h⟩
+  | data t st =>
+    simp only [step, sData, popAllS]
+    split
+    · obtain ⟨a, b⟩ := popLoopS_sets (sPush s t).q.size.toNat (sPush s t)
+      exact ⟨fun k h => by rw [a]; exact Or.inl h, fun k h => b k h⟩
+    · obtain ⟨a, b⟩ := popLoopS_sets s.q.size.toNat s
+      exact ⟨fun k h => by rw [a]; exact h, b⟩
+  | fwd c =>
+    simp only [step, sFwd, popAllS]
+    split
+    · exact ⟨fun k h => h, fun k h => h⟩
+    · obtain ⟨a, b⟩ := popLoopS_sets (sAdv s c).q.size.toNat (sAdv s c)
+      exact ⟨fun k h => by rw [a]; exact h, fun k h => b k (Or.inl h)⟩
+  | sack => exact ⟨fun k h => h, fun k h => h⟩
+
+/-- TSN-level reading of the ghost sets (coarser than the index-level one once the 32-bit
+space has wrapped completely) -/
+def AcceptedTSN (s : St) (t : TSN) : Prop := ∃ k, s.h.acc k ∧ t = s.h.c0 + BitVec.ofNat 32 k
+def SkippedTSN (s : St) (t : TSN) : Prop := ∃ k, s.h.skp k ∧ t = s.h.c0 + BitVec.ofNat 32 k
+
+/-- ops the association issues (it never calls the bare queue operations in another order) -/
+def assocOp : Op → Prop
+  | .init _ | .data _ _ | .fwd _ | .sack => True
+  | _ => False
+
+/-- pop-normalised: `pop(false)` would fail -/
+def Normalised (q : Q) : Prop := hasChunk q (q.cum + 1) = false
+
+theorem step_normalised {s : St} (g : GInv s) (hn : Normalised s.q) (op : Op) (ha : assocOp op) :
+    Normalised (step s op).q := by
+  cases op with
+  | init c => simp [Normalised, step, sInit, init, hasChunk]
+  | push t => exact absurd ha (by simp [assocOp])
+  | pop f => exact absurd ha (by simp [assocOp])
+  | adv c => exact absurd ha (by simp [assocOp])
+  | data t st =>
+    simp only [step, sData]
+    split
+    · exact popAllS_done (sPush_ginv g t).inv
+    · exact popAllS_done g.inv
+  | fwd c =>
+    simp only [step, sFwd]
+    split
+    · exact hn
+    · exact popAllS_done (sAdv_ginv g c).inv
+  | sack => exact hn
+
+theorem run_normalised {s : St} (g : GInv s) (hn : Normalised s.q) (ops : List Op)
+    (ha : ∀ op ∈ ops, assocOp op) : Normalised (run s ops).q := by
+  induction ops generalizing s with
+  | nil => exact hn
+  | cons op ops ih =>
+    exact ih (step_ginv g op) (step_normalised g hn op (ha op List.mem_cons_self))
+      (fun o ho => ha o (List.mem_cons_of_mem _ ho))
+
+theorem start_normalised (m c : TSN) : Normalised (start m c).q := by
+  simp [Normalised, start, sInit, init, hasChunk]
+
+/-- set bits and held offsets are in bijection -/
+theorem bit_iff_heldAt {q : Q} (I : Inv q) (i : Nat) :
+    getBit q.bits i = true ↔ ∃ d, heldAt q d ∧ pos q.W (q.cum + BitVec.ofNat 32 d) = i := by
+  constructor
+  · intro h
+    obtain ⟨t, h1, h2, h3⟩ := I.hwin i h
+    refine ⟨(t - q.cum).toNat, ⟨h1, h2, ?_⟩, ?_⟩
+    · rw [add_off, h3]; exact h
+    · rw [add_off]; exact h3
+  · rintro ⟨d, ⟨_, _, hb⟩, rfl⟩; exact hb
+
+theorem heldAt_inj {q : Q} (I : Inv q) {d d' : Nat} (h : heldAt q d) (h' : heldAt q d')
+    (hp : pos q.W (q.cum + BitVec.ofNat 32 d) = pos q.W (q.cum + BitVec.ofNat 32 d')) : d = d' := by
+  obtain ⟨hb1, hb2⟩ := I.hb
+  have hN := I.hmax
+  obtain ⟨a1, a2, _⟩ := h
+  obtain ⟨b1, b2, _⟩ := h'
+  have e1 := off_ofNat q.cum d (by omega)
+  have e2 := off_ofNat q.cum d' (by omega)
+  have := pos_inj I.hdvd q.cum _ _ (by omega) (by omega) (by omega) (by omega) hp
+  rw [← e1, ← e2, this]
+
+theorem heldAt_tail {q : Q} (I : Inv q) (hs : q.size ≠ 0) : heldAt q (dtail q) :=
+  ⟨I.dtail_pos hs, Nat.le_refl _, by simp only [dtail, add_off]; exact I.ht1 hs⟩
+
 end RecvQ
